@@ -1234,6 +1234,27 @@ func guardFact(p *packages.Package, fd *ast.FuncDecl, access ast.Expr, kind stri
 		}
 		switch kind {
 		case "lenguard":
+			// short-circuit form anywhere (a return expression, an assignment): `len(x) >= k && x[…] …`
+			if be, isB := n.(*ast.BinaryExpr); isB && be.Op == token.LAND && be.Pos() <= access.Pos() && access.End() <= be.End() {
+				conj := flattenAnd(be)
+				for i, c := range conj {
+					if !(c.Pos() <= access.Pos() && access.End() <= c.End()) {
+						continue
+					}
+					for _, prev := range conj[:i] {
+						ast.Inspect(prev, func(x ast.Node) bool {
+							if ce, ok := x.(*ast.CallExpr); ok {
+								if id, ok := ce.Fun.(*ast.Ident); ok && id.Name == "len" && len(ce.Args) == 1 {
+									if a := types.ExprString(ce.Args[0]); a == base || strings.Contains(base, a) {
+										found = true
+									}
+								}
+							}
+							return true
+						})
+					}
+				}
+			}
 			is, ok := n.(*ast.IfStmt)
 			if !ok || is.End() > access.Pos() && !(is.Body.Pos() <= access.Pos() && access.End() <= is.Body.End()) && is.Else == nil {
 				// an if statement that ends before the access (early exit) or encloses it
